@@ -89,8 +89,25 @@ func c19read(l jet.Loader, p string) (string, error) {
 		return "", err
 	}
 	defer rc.Close()
-	b, err := io.ReadAll(rc)
-	return string(b), err
+	// a second handle on the same entry, opened while the first one is unread: each has a cursor of its own, and with no
+	// edit in between both read the same content, in whatever order they are read
+	rc2, err := l.Open(p)
+	if err != nil {
+		return "", fmt.Errorf("a second Open while the first handle is open failed: %v", err)
+	}
+	defer rc2.Close()
+	var head [3]byte
+	n, _ := io.ReadFull(rc, head[:])
+	b2, err := io.ReadAll(rc2)
+	if err != nil {
+		return string(b2), err
+	}
+	rest, err := io.ReadAll(rc)
+	first := string(head[:n]) + string(rest)
+	if err == nil && first != string(b2) {
+		return first, fmt.Errorf("two handles opened on one entry read %q and %q", first, b2)
+	}
+	return first, err
 }
 
 type c19op struct {
